@@ -656,7 +656,18 @@ func (w *World) deleteMulti(offs []int64, offsetsOnly bool) bool {
 		}
 	}
 	if err != nil {
-		w.failf("C12", "%s failed: %v", what, err)
+		// as for a single Delete: a request whose lowest offset lies below the oldest live message may be
+		// refused with ErrNotFound (what the tree answers for an offset that was trimmed away)
+		minOff := int64(1 << 62)
+		for _, o := range offs {
+			if o < minOff {
+				minOff = o
+			}
+		}
+		below := len(w.M.Live) == 0 || minOff < w.M.Live[0].Off
+		if !(errors.Is(err, klevdb.ErrNotFound) && below) {
+			w.failf("C12", "%s failed: %v", what, err)
+		}
 	}
 	if size != pl.size {
 		w.failf("C12", "%s returned size %d, sum of its passes is %d", what, size, pl.size)
